@@ -117,7 +117,7 @@ def run_bitproto() -> None:
     args = args_parser.parse_args()
 
     filter_messages: Optional[List[str]] = None
-    if args.filter_messages:
+    if args.filter_messages is not None:
         filter_messages = list(
             map(lambda s: s.strip(), args.filter_messages.split(","))
         )
@@ -168,7 +168,7 @@ def main(
         fatal(str(NoLanguageArgument()))
 
     if not enable_optimize:
-        if filter_messages:
+        if filter_messages is not None:
             fatal("-F not available in non-optimization mode.")
 
     try:
